@@ -229,7 +229,12 @@ _ENC = (r'^(value::IppValue::(to_tag|to_bytes)|attribute::IppAttribute::to_bytes
         r'IppHeader::to_bytes|request::IppRequestResponse::to_bytes)$')
 _DEC = r'^(value::get_len_string|value::IppValue::parse|parser::list_or_value|parser::ParserState::\w+)$'
 _ESS = {
-    'C01': {'essential': [{'owners': r'^(ghost:.*verif_roundtrip|verif_roundtrip::)', 'untagged': True}],
+    # C01 = decoder(encoder(x)) == x.  A deviation of the ENCODER from the RFC encoding is inside C01's domain by construction
+    # (every message of the value model is encoded), so its c03 clauses are essential here too; a deviation of the DECODER may
+    # concern only forms the encoder never emits (invalid UTF-8, out-of-band values, ...), so its clauses are decided by the
+    # bounded round-trip check.
+    'C01': {'essential': [{'owners': r'^(ghost:.*verif_roundtrip|verif_roundtrip::)', 'untagged': True},
+                          {'owners': _ENC, 'tags': ['c03'], 'untagged': True}],
             'kani_essential': []},
     'C02': {'essential': [{'owners': '|'.join([_FRONT, _RDRS, _ENC, _DEC]), 'tags': ['c02'], 'safety': True}],
             'kani_essential': _K_RD_PLAIN},
